@@ -485,6 +485,9 @@ M('r3-indep-endpoint-shortcut', ['C09'], PC, "        return len(set(self.qubits
 B('r3-benign-reset-both-maps-in-take', ['C10'], PC, "        if max(gate.qubits)>=self.N:\n            raise ValueError(\"The gate acting on unregistered qubits!\")\n        if self.last_layer.independent_from(gate): # if last layer commute with the new gate",
   "        if max(gate.qubits)>=self.N:\n            raise ValueError(\"The gate acting on unregistered qubits!\")\n        self.forward_map = None\n        self.backward_map = None\n        if self.last_layer.independent_from(gate): # if last layer commute with the new gate")
 
+B('r3-benign-list-repr-map', ['C20'], PP, "        return '\\n'.join([repr(pauli) for pauli in self])", "        return '\\n'.join(map(repr, self))")
+B('r3-benign-list-repr-loop', ['C20'], PP, "        return '\\n'.join([repr(pauli) for pauli in self])", "        lines = []\n        for k in range(len(self)):\n            lines.append(str(self[k]))\n        return '\\n'.join(lines)")
+M('r3-list-repr-skips-first', ['C20'], PP, "        return '\\n'.join([repr(pauli) for pauli in self])", "        return '\\n'.join([repr(self[k]) for k in range(1, len(self))])", ['R12.listrepr'])
 # ------------------------------------------------------------------ R19 mixed-library dataflow (torch port)
 M('r19-embed-tensor-mask', ['C03', 'C09', 'C10', 'C13', 'C18'], TS, '        mask2 = numpy.repeat(numpy.array(mask), 2)', '        mask2 = numpy.repeat(mask, 2)', ['R19'])
 M('r19-gate-tensor-qubits', ['C13', 'C18', 'C09'], TC, '    qubits_cond = qubits_cond.tolist() # plain integer qubit indices\n', '', ['R19'])
